@@ -14,6 +14,7 @@ Oracle (no model): build 1 exits non-zero, names exactly the failed targets, run
                fail-fast: no command starts later than 1 s after the first failing command ended.
 """
 import concurrent.futures as cf
+import time
 from checks import _walker as W
 
 PROPERTY = "C05"
@@ -36,6 +37,7 @@ OBLIGATIONS = [
     "Grog.C05.fail_fast_no_release",
     "Grog.C05.ctx_stays_cancelled",
     "Grog.C05.failed_not_cached",
+    "Grog.C05.missing_any_declared_output_fails",
     "Grog.C05.tail_failure_kinds",
     "Grog.C05.exit_status",
     "Grog.C05.keep_going_exit_status",
@@ -47,7 +49,7 @@ ASSUMPTIONS = [
     "the failure causes used by the CLI histories are flag files outside the declared inputs, so cache keys do not change between the two builds",
 ]
 
-KINDS = ["exit", "timeout", "missing", "check"]
+KINDS = ["exit", "timeout", "missing", "missing-first", "check"]
 
 
 def cli_case(ctx, idx, rng_seed):
@@ -123,10 +125,26 @@ def cli_case(ctx, idx, rng_seed):
     if b3["rc"] != 0 or any(k == "s" for k, _, _ in b3["trace"]):
         res["b3"] = {"rc": b3["rc"], "started": sorted({m for k, m, _ in b3["trace"] if k == "s"})}
     if bad:
-        res["out1"] = b1["out"][-1500:]
+        res["out1"] = b1["out"][-4000:]
+        res["trace1"] = [(k, m) for k, m, _ in b1["trace"]]
         res["out2"] = b2["out"][-800:]
     ws.cleanup()
     return res
+
+
+def cli_case_confirmed(ctx, idx, seed):
+    """a failing history is run a second time in a fresh workspace; only oracle failures that repeat are reported (the
+    history is deterministic up to scheduling; what does not repeat is counted in the evidence as unconfirmed)"""
+    r = cli_case(ctx, idx, seed)
+    if r["bad"]:
+        r2 = cli_case(ctx, idx + 5000, seed)
+        sigs2 = {sig for sig, _ in r2["bad"]}
+        r["first_attempt_bad"] = [sig for sig, _ in r["bad"]]
+        r["unconfirmed"] = [sig for sig, _ in r["bad"] if sig not in sigs2]
+        r["bad"] = [(sig, msg) for sig, msg in r["bad"] if sig in sigs2]
+        if r["unconfirmed"]:
+            r["unconfirmed_out1"] = r.get("out1")
+    return r
 
 
 def ff_timing_case(ctx, idx, workers):
@@ -153,6 +171,37 @@ def ff_timing_case(ctx, idx, workers):
     if res["bad"]:
         res["out"] = b["out"][-1200:]
     ws.cleanup()
+    return res
+
+
+def ff_queue_case(ctx, idx):
+    """fail-fast with ONE worker and more ready targets than workers: f runs 0.5 s and fails; r is quick; q1..q6 depend on r.
+    Whatever order the pool picks, something is queued behind f when it fails, and with one worker nothing runs concurrently
+    with f: every command start after f's failure is a target started after the first failure. The property (and the model)
+    allow a start in the window between the failing process exiting and onComplete, so a late start counts only if it shows
+    up in three runs out of three."""
+    n = 8
+    edges = [[1, m] for m in range(2, 8)]
+    kinds = ["exit-logged"] + [None] * 7
+    sleep = [0.5, 0] + [0.1] * 6
+    runs = []
+    for attempt in range(3):
+        ws = W.CliWs(ctx, f"c05-ffq-{idx}-{attempt}", n, edges, kinds=kinds, sleep=sleep, workers=1)
+        b = ws.build(flags=("--fail-fast",))
+        time.sleep(0.6)                      # commands started by a dying grog survive as orphans: let them log
+        tr = b["trace"] + ws.read_trace()
+        failed_at = [t for k, m, t in tr if k == "e" and m == 0]
+        late = sorted((m, round((t - failed_at[0]) / 1e9, 3)) for k, m, t in tr if failed_at and k == "s" and m != 0 and t > failed_at[0])
+        runs.append({"rc": b["rc"], "late_starts": late, "f_ran": bool(failed_at)})
+        ws.cleanup()
+        if not late:
+            break
+    res = {"n": n, "edges": edges, "family": "ff-queue", "workers": 1, "failFast": True, "runs": runs, "bad": []}
+    if any(r["rc"] == 0 for r in runs):
+        res["bad"].append(("failure-exit-zero", "fail-fast build with a failing target exited 0"))
+    if len(runs) == 3 and all(r["late_starts"] for r in runs):
+        res["bad"].append(("target-started-after-first-failure",
+                           f"--fail-fast, num_workers=1: in 3 of 3 runs commands started after the failing command had failed: {[r['late_starts'] for r in runs]}"))
     return res
 
 
@@ -238,8 +287,9 @@ def run(ctx):
     seeds = [rng.randrange(1 << 30) for _ in range(nh)]
     results = []
     with cf.ThreadPoolExecutor(max_workers=4) as ex:
-        futs = [ex.submit(cli_case, ctx, i, s) for i, s in enumerate(seeds)]
+        futs = [ex.submit(cli_case_confirmed, ctx, i, s) for i, s in enumerate(seeds)]
         futs += [ex.submit(ff_timing_case, ctx, i, w) for i, w in enumerate((1, 2) if quick else (1, 2, 3, 4))]
+        futs += [ex.submit(ff_queue_case, ctx, i) for i in range(2 if quick else 8)]
         for f in futs:
             results.append(f.result())
     kinds_seen, fams = {}, {}
@@ -251,6 +301,10 @@ def run(ctx):
             oracle_fail += 1
             ctx.violation(msg, {"kind": "oracle", "oracle": "CLI two-build history", "history": r}, signature=sig)
     ctx.coverage["cli_histories"] = len(results)
+    ctx.coverage["cli_unconfirmed_oracle_failures"] = [(r["family"], r["unconfirmed"]) for r in results if r.get("unconfirmed")]
+    for r in results:
+        if r.get("unconfirmed"):
+            ctx.notes.append(f"unconfirmed (not repeated) oracle failure {r['unconfirmed']} in a {r['family']} history: {str(r.get('b1'))[:200]}")
     ctx.coverage["cli_builds"] = sum(3 if "b1" in r else 1 for r in results)
     ctx.coverage["cli_failure_kinds"] = kinds_seen
     ctx.coverage["cli_families"] = fams
@@ -260,7 +314,7 @@ def run(ctx):
         len({(r["family"], r["n"], r.get("failFast"), tuple(sorted((r.get("kinds") or {}).values()))) for r in results})
     ctx.coverage["rule"] = (f"{len(cases)} in-process walks with >=1 failing node (fan-out 1/2/64/128 with failing root or leaf, random DAGs, both modes, pools) "
                             f"replayed through the model + {len(results)} CLI histories of 3 builds (4..9 targets, 1..3 failing with kinds exit/timeout/"
-                            "missing-output/check, keep-going and fail-fast, 1/2/4 workers) + fail-fast timing runs; non-trivial = distinct "
+                            "missing-output/missing-first-of-two-outputs/check, keep-going and fail-fast, 1/2/4 workers; a failing history is repeated once) + fail-fast timing runs + fail-fast one-worker queue runs; non-trivial = distinct "
                             "(family,n,mode,#fail / failure kinds)")
     ctx.coverage["oracle_failures"] = oracle_fail
     ctx.coverage["disagreements"] = len(disagreements)
